@@ -97,6 +97,8 @@ STATEMENTS = [
     "def fn():\n    return list(e1 + r1 for r1 in g1 for e1 in r1 if r1 and e1)",
     "def fn():\n    return [[e2 for e2 in e1] for e1 in g1]",
     "lam = lambda p1, p2=g1, *pa, k1=g2, **pk: p1 + p2 + k1 + g3",
+    "lam = lambda g1=g1: g1", "def fn(v, *, g2=g2):\n    return v + g2", "def fn(g1=g1 + g2):\n    g2 = 1\n    return g1 + g2",
+    "def fn(p1):\n    lam = lambda p1=p1, g1=g1: p1 + g1\n    return lam",
     "lam = lambda: {k: v for r1, line in enumerate(g1) for k, v in enumerate(line)}",
     "lam = lambda: [e1 for r1 in g1 for e1 in r1]",
     "b = [e1 for e1 in g1]", "b = {k: v for k, v in g1}", "b = {k: v for r1, line in enumerate(g1) for k, v in enumerate(line)}",
